@@ -4,6 +4,7 @@ ID = "C10"
 LEVEL = "model_checking"
 HARNESS = ["c10_parts.cpp"]
 MODULE = "c10"
+ENTRIES = ("h_parts", "h_weights", "h_split", "h_partlabels")
 BOUNDS = {
     "quick": {"(a) topology+labels": "OB/FO3/SK/SSE, 3-4 vertices, 1-2 triangles with symbolic corners (distinct, non-degenerate), 2 bones, symbolic partition id per triangle in [-1, #partitions] (unassigned and out-of-range included); SetShapePartitions, UpdateSkinPartitions, GetShapePartitions, RemoveEmptyPartitions, SetDefaultPartition", "(b) weights": "symbolic float weights in [0,1] (incl. zero) per (bone,vertex), 3 vertices, 1-2 bones, concrete topology", "(c) bone limit": "6 vertices, 4 triangles, 24 bones (4 per vertex, disjoint bone sets per triangle pair): forces the 18-bone split for OB/FO3; symbolic partition per triangle"},
     "thorough": {"(a) topology+labels": "4 vertices, 2 triangles, 3 partitions, all four versions", "(b) weights": "3-4 vertices, 2 bones", "(c) bone limit": "as quick"},
